@@ -37,6 +37,70 @@ func sortOps(ops []aOp) {
 	})
 }
 
+// absAndInv evaluates, on the real cache map and the real bucket, what a reader would be told
+// for every known outpoint (cache slot first: nil or spent = absent; no slot = the bucket row)
+// and whether the cache's safety invariant holds: a nil slot or a fresh entry has no bucket row,
+// an unmodified entry is unspent and equals its row.  Only the entries' own predicates are used.
+func absAndInv(cache, bucket []blockchain.VerifC03Entry, id func(chainhash.Hash) (int, bool), known []aOp) (string, int) {
+	type key struct {
+		t, i int
+	}
+	inv := 1
+	cm := map[key]blockchain.VerifC03Entry{}
+	bm := map[key]blockchain.VerifC03Entry{}
+	kn := map[key]bool{}
+	for _, o := range known {
+		kn[key{o.t, o.i}] = true
+	}
+	for _, e := range bucket {
+		t, ok := id(e.Outpoint.Hash)
+		k := key{t, int(e.Outpoint.Index)}
+		if !ok || !kn[k] {
+			inv = 0 // a row nobody on the line can account for
+		}
+		bm[k] = e
+	}
+	same := func(a, b blockchain.VerifC03Entry) bool {
+		return a.Amount == b.Amount && string(a.PkScript) == string(b.PkScript) && a.Height == b.Height && a.CoinBase == b.CoinBase
+	}
+	for _, e := range cache {
+		t, ok := id(e.Outpoint.Hash)
+		k := key{t, int(e.Outpoint.Index)}
+		if !ok || !kn[k] {
+			inv = 0
+		}
+		cm[k] = e
+		row, has := bm[k]
+		switch {
+		case e.Nil:
+			if has {
+				inv = 0
+			}
+		case e.Fresh && has:
+			inv = 0
+		case !e.Modified && (e.Spent || !has || !same(e, row)):
+			inv = 0
+		}
+	}
+	var parts []string
+	for _, o := range known {
+		k := key{o.t, o.i}
+		var e blockchain.VerifC03Entry
+		if ce, ok := cm[k]; ok {
+			if ce.Nil || ce.Spent {
+				continue
+			}
+			e = ce
+		} else if row, ok := bm[k]; ok {
+			e = row
+		} else {
+			continue
+		}
+		parts = append(parts, fmt.Sprintf("%d.%d:%s", o.t, o.i, fmtEntry(e.Amount, e.PkScript, e.Height, e.CoinBase)))
+	}
+	return strings.Join(parts, ","), inv
+}
+
 func flushMode(c byte) blockchain.FlushMode {
 	switch c {
 	case 'r':
@@ -116,7 +180,6 @@ type chainRun struct {
 	atxs   map[int]aTx
 	iscb   map[int]bool
 	views  []savedView
-	base   uint64 // CachedStateSize right after the first required flush of the current chain object (0 = not yet seen)
 }
 
 type savedView struct {
@@ -256,11 +319,9 @@ func (r *chainRun) absEntries(es []blockchain.VerifC03Entry, withFlags bool) str
 		}
 		s := "nil"
 		if !e.Nil {
-			s = fmtEntry(e.Amount, e.PkScript, e.Height, e.Flags&1 != 0)
-			if withFlags {
-				s += fmt.Sprintf(".%d", e.Flags>>1)
-			}
+			s = fmtEntry(e.Amount, e.PkScript, e.Height, e.CoinBase)
 		}
+		_ = withFlags
 		rows = append(rows, row{aOp{id, int(e.Outpoint.Index)}, s})
 	}
 	sort.Slice(rows, func(i, j int) bool {
@@ -319,7 +380,6 @@ func execChain(c cfg, ops []string, slot int) string {
 		txs: map[int]*btcutil.Tx{}, atxs: map[int]aTx{}, iscb: map[int]bool{}}
 	r.in = newInst(r.b.params, c.cache, slot)
 	defer r.in.close()
-	r.base = 0
 	var out []string
 	for _, op := range ops {
 		switch op[0] {
@@ -380,18 +440,8 @@ func execChain(c cfg, ops []string, slot int) string {
 					mid = id
 				}
 			}
-			// after a required flush the cache accounts for nothing but its empty map: the same size
-			// after every required flush of one chain object
-			z := 0
-			if r.base == 0 {
-				r.base = r.in.chain.CachedStateSize()
-			}
-			if r.in.chain.CachedStateSize() == r.base {
-				z = 1
-			} else if os.Getenv("VERIF_DEBUG") != "" {
-				fmt.Fprintf(os.Stderr, "cached state size %d, empty %d\n", r.in.chain.CachedStateSize(), r.base)
-			}
-			out = append(out, fmt.Sprintf("d=%s;m=%d;z=%d", r.absEntries(rows, false), mid, z))
+			_ = r.in.chain.CachedStateSize() // driven, not compared: a memory estimate is internal
+			out = append(out, fmt.Sprintf("d=%s;m=%d", r.absEntries(rows, false), mid))
 		case 'X', 'Y':
 			// unclean shutdown: the chain object (cache included) is dropped without a flush and a
 			// new one is started on the same database with a possibly different cache size; Y starts
@@ -410,13 +460,22 @@ func execChain(c cfg, ops []string, slot int) string {
 				DB: r.in.db, ChainParams: r.b.params, TimeSource: blockchain.NewMedianTime(),
 				UtxoCacheMaxSize: size, Interrupt: intr,
 			})
+			if op[0] == 'Y' {
+				// whether anything had to be replayed (hence whether the start-up was interrupted)
+				// depends on when the cache happened to flush: not compared
+				if err != nil {
+					ch = nil
+				}
+				r.in.chain = ch
+				out = append(out, "y")
+				continue
+			}
 			if err != nil {
 				r.in.chain = nil
-				out = append(out, "int")
+				out = append(out, "err")
 				continue
 			}
 			r.in.chain = ch
-			r.base = 0
 			out = append(out, "ok")
 		case 'J':
 			// spend journal of any delivered block, active or not
@@ -470,7 +529,6 @@ func execChain(c cfg, ops []string, slot int) string {
 				continue
 			}
 			r.in.chain = ch
-			r.base = 0
 			out = append(out, "ok")
 		case 'O':
 			out = append(out, r.observe())
@@ -479,22 +537,16 @@ func execChain(c cfg, ops []string, slot int) string {
 			r.known[o] = true
 			out = append(out, r.fetch(o))
 		case 'D':
+			// non-perturbing look at the real cache map and bucket: the abstraction for every known
+			// outpoint and the cache's safety invariant (no internal policy is compared)
 			rows, err := r.in.chain.VerifC03BucketDump()
 			if err != nil {
 				out = append(out, "err")
 				continue
 			}
-			lf, marker := r.in.chain.VerifC03LastFlushHash()
-			mid := -1
-			if len(marker) == chainhash.HashSize {
-				var h chainhash.Hash
-				copy(h[:], marker)
-				if id, ok := r.b.blkID[h]; ok {
-					mid = id
-				}
-			}
-			out = append(out, fmt.Sprintf("c=%s;d=%s;l=%d;m=%d;t=%d", r.absEntries(r.in.chain.VerifC03CacheDump(), true),
-				r.absEntries(rows, false), r.b.blkID[lf], mid, r.in.chain.BestSnapshot().TotalTxns))
+			a, inv := absAndInv(r.in.chain.VerifC03CacheDump(), rows,
+				func(h chainhash.Hash) (int, bool) { id, ok := r.b.txID[h]; return id, ok }, r.knownSorted())
+			out = append(out, fmt.Sprintf("a=%s;inv=%d;t=%d", a, inv, r.in.chain.BestSnapshot().TotalTxns))
 		default:
 			return "bad-op"
 		}
@@ -514,34 +566,12 @@ func execCache(ops []string) string {
 	if err != nil {
 		panic(err)
 	}
-	conv := func(es []blockchain.VerifC03Entry, withFlags bool) string {
-		type row struct {
-			o aOp
-			s string
+	known := map[aOp]bool{}
+	cid := func(h chainhash.Hash) (int, bool) {
+		if h[0] != 0xc3 {
+			return 0, false
 		}
-		var rows []row
-		for _, e := range es {
-			t := int(e.Outpoint.Hash[1]) | int(e.Outpoint.Hash[2])<<8
-			s := "nil"
-			if !e.Nil {
-				s = fmtEntry(e.Amount, e.PkScript, e.Height, e.Flags&1 != 0)
-				if withFlags {
-					s += fmt.Sprintf(".%d", e.Flags>>1)
-				}
-			}
-			rows = append(rows, row{aOp{t, int(e.Outpoint.Index)}, s})
-		}
-		sort.Slice(rows, func(i, j int) bool {
-			if rows[i].o.t != rows[j].o.t {
-				return rows[i].o.t < rows[j].o.t
-			}
-			return rows[i].o.i < rows[j].o.i
-		})
-		parts := make([]string, len(rows))
-		for i, x := range rows {
-			parts[i] = fmt.Sprintf("%d.%d:%s", x.o.t, x.o.i, x.s)
-		}
-		return strings.Join(parts, ",")
+		return int(h[1]) | int(h[2])<<8, true
 	}
 	real := func(o aOp) wire.OutPoint { return wire.OutPoint{Hash: cacheHash(o.t), Index: uint32(o.i)} }
 	var out []string
@@ -554,12 +584,14 @@ func execCache(ops []string) string {
 				return "bad-op"
 			}
 			o := parseOp(f[0])
+			known[o] = true
 			err := c.AddTxOut(real(o), &wire.TxOut{Value: int64(atoi(f[1])), PkScript: unhexOrDash(f[2])}, f[3] == "1", int32(atoi(f[4])))
 			res = "ok"
 			if err != nil {
 				res = "err"
 			}
 		case 's':
+			known[parseOp(op[1:])] = true
 			st, err := c.AddTxIn(real(parseOp(op[1:])))
 			if err != nil {
 				if _, ok := err.(blockchain.AssertError); ok {
@@ -572,11 +604,15 @@ func execCache(ops []string) string {
 			}
 		case 'f':
 			o := parseOp(op[1:])
+			known[o] = true
 			e, err := c.Fetch(real(o))
-			if err != nil {
+			switch {
+			case err != nil:
 				res = "err"
-			} else {
-				res = conv([]blockchain.VerifC03Entry{e}, true)
+			case e.Nil || e.Spent:
+				res = "none"
+			default:
+				res = fmtEntry(e.Amount, e.PkScript, e.Height, e.CoinBase)
 			}
 		case 'w': // w<mode><full><due>:<best>
 			if len(op) < 6 {
@@ -586,7 +622,9 @@ func execCache(ops []string) string {
 			if atoi(op[5:]) == 0 {
 				best = chainhash.Hash{} // id 0 is the all-zero hash a new cache starts with
 			}
-			if op[2] < '0' || op[2] > '3' || op[3] < '0' || op[3] > '3' {
+			// threshold: 0 = limit far above the usage, 1 = limit 0; timer: 0 = just flushed,
+			// 1 = twice the interval ago (the exact limits are internal tuning, not compared)
+			if op[2] < '0' || op[2] > '1' || op[3] < '0' || op[3] > '1' {
 				return "bad-op"
 			}
 			err := c.FlushEdge(flushMode(op[1]), int(op[2]-'0'), int(op[3]-'0'), best)
@@ -601,9 +639,13 @@ func execCache(ops []string) string {
 		if err != nil {
 			return "err"
 		}
-		lf := c.LastFlushHash()
-		l := int(lf[1]) | int(lf[2])<<8
-		out = append(out, fmt.Sprintf("%s;c=%s;d=%s;l=%d", res, conv(c.Dump(), true), conv(rows, false), l))
+		var ks []aOp
+		for o := range known {
+			ks = append(ks, o)
+		}
+		sortOps(ks)
+		ab, inv := absAndInv(c.Dump(), rows, cid, ks)
+		out = append(out, fmt.Sprintf("%s;a=%s;inv=%d", res, ab, inv))
 	}
 	return strings.Join(out, "|")
 }
@@ -611,21 +653,13 @@ func execCache(ops []string) string {
 // ---------------------------------------------------------------- facts (T2)
 
 func (P) Facts() []core.Fact {
-	fl := blockchain.VerifC03Flags()
 	return []core.Fact{
-		{Name: "tfCoinBase", Value: int64(fl[0])},
-		{Name: "tfSpent", Value: int64(fl[1])},
-		{Name: "tfModified", Value: int64(fl[2])},
-		{Name: "tfFresh", Value: int64(fl[3])},
 		{Name: "maxScriptSize", Value: int64(txscript.MaxScriptSize)},
 		{Name: "opReturn", Value: int64(txscript.OP_RETURN)},
 		{Name: "opData75", Value: int64(txscript.OP_DATA_75)},
 		{Name: "opPushData1", Value: int64(txscript.OP_PUSHDATA1)},
 		{Name: "opPushData2", Value: int64(txscript.OP_PUSHDATA2)},
 		{Name: "opPushData4", Value: int64(txscript.OP_PUSHDATA4)},
-		{Name: "flushRequired", Value: int64(blockchain.FlushRequired)},
-		{Name: "flushPeriodic", Value: int64(blockchain.FlushPeriodic)},
-		{Name: "flushIfNeeded", Value: int64(blockchain.FlushIfNeeded)},
 	}
 }
 
